@@ -3,6 +3,43 @@ import DFV.Lemmas.C17Rebuild
 namespace DFV.C17
 open DFV
 
+/-- a sample set of attribute names of `Field` for the non-vacuity examples (the theorems hold
+for every set; the correspondence run uses the answers of the real class) -/
+@[reducible] def exAttrs : FieldAttrs :=
+  ⟨fun c => ["mesh", "array", "norm", "unit", "mean", "to_xarray", "__class__"].contains c⟩
+
+attribute [local instance] exAttrs
+
+theorem v_ne (s t : String) (h : t.toList.head? ≠ some 'v') : ("v" ++ s == t) = false := by
+  rw [beq_eq_false_iff_ne]
+  intro he
+  apply h
+  rw [← he]
+  simp [String.toList_append]
+
+/-- the sample attribute set meets the hypothesis `hdef` of `import_wf`: none of the default
+labels `x, y, z, v0, v1, …` is in it -/
+theorem exAttrs_defaults : ∀ k l, Fld.defaultVdims k = some l → l.any FieldAttrs.has = false := by
+  intro k l h
+  unfold Fld.defaultVdims at h
+  split at h
+  · cases h
+  · split at h
+    · injection h with h
+      subst h
+      have : k = 0 ∨ k = 1 ∨ k = 2 ∨ k = 3 := by omega
+      rcases this with rfl | rfl | rfl | rfl <;> decide
+    · injection h with h
+      subst h
+      rw [List.any_eq_false]
+      intro x hx
+      obtain ⟨i, -, rfl⟩ := List.mem_map.mp hx
+      show (["mesh", "array", "norm", "unit", "mean", "to_xarray", "__class__"].contains ("v" ++ toString i)) ≠ true
+      simp only [List.contains_cons, List.contains_nil, v_ne _ "mesh" (by decide), v_ne _ "array" (by decide),
+        v_ne _ "norm" (by decide), v_ne _ "unit" (by decide), v_ne _ "mean" (by decide), v_ne _ "to_xarray" (by decide),
+        v_ne _ "__class__" (by decide), Bool.false_or, Bool.or_false]
+      exact Bool.false_ne_true
+
 /-- 3-d mesh with negative offset, a single-cell axis, `n = (3,1,2)`, renamed units, custom
 tolerance; two labelled components (no default component mapping), distinct values -/
 def exF : XFld Nat :=
@@ -50,5 +87,26 @@ def exHand : XA Nat :=
     vdimsCoord := none, data := ⟨[3, 2, 2], fun i => flatC [3, 2, 2] i⟩,
     attrs := { units := none, cell := none, pmin := none, pmax := none, nvdim := some (.int 2), tol := none },
     dtype := "int64" }
+
+/-- single-cell axis with the `cell` attribute: x has the one coordinate 3, cell 2 -/
+def exOne : XA Nat :=
+  { name := "one", axes := [{ name := "x", size := 1, coord := some { vals := [3], units := none } },
+                            { name := "t", size := 2, coord := some { vals := [10, 21/2], units := none } }],
+    vdimsCoord := none, data := ⟨[1, 2], fun i => flatC [1, 2] i⟩,
+    attrs := { units := none, cell := some [2, 1/2], pmin := none, pmax := some [4, 43/4], nvdim := some (.int 1), tol := none },
+    dtype := "float64" }
+
+/-- history on `exS` (no subregions): translate, scale by (-2, 1/2) about the centre, a rejected call -/
+def exOps : List MeshOp := [.translate [1, 2], .scale (.vec [-2, 1/2]) none, .translate [1], .scale (.scalar 0) none]
+
+/-- `exHand` with a label coordinate one of whose entries is the name of an attribute -/
+def exReserved : XA Nat := { exHand with vdimsCoord := some ["mesh", "b"] }
+
+/-- evenly spaced DESCENDING coordinates 3, 2, 1 with complete attributes -/
+def exDesc : XA Nat :=
+  { name := "desc", axes := [{ name := "x", size := 3, coord := some { vals := [3, 2, 1], units := none } }],
+    vdimsCoord := none, data := ⟨[3], fun i => 10 * i.getD 0 0⟩,
+    attrs := { units := none, cell := some [1], pmin := some [1/2], pmax := some [7/2], nvdim := some (.int 1), tol := none },
+    dtype := "float64" }
 
 end DFV.C17
